@@ -31,10 +31,20 @@ pub fn prefix_stream(seed: u64, cases: usize, maxlen: usize, ex: &mut ChildExec)
     let mut rng = Rng::new(seed);
     let mut sink = Sink::default();
     // corpus first
-    for h in ["00551220", "00701320", "00701220", "1220", "01551220", "0170b2201e", "1221", "1320"] {
-        for op in [format!("pfx {h}")] {
-            let imp = ex.exec(&op);
-            sink.push(op, imp, "-".into());
+    for h in ["00551220", "00701320", "00701620", "0070b2202020", "00701220", "0070121f", "00711220", "1220", "01551220", "0170b2201e", "1221", "1320", "00701e20", "000012201220"] {
+        let op = format!("pfx {h}");
+        let imp = ex.exec(&op);
+        let parses = imp.starts_with("some");
+        sink.push(op, imp, "-".into());
+        if parses {
+            let bytes = crate::text::unhex(h).unwrap();
+            for s in [32usize, 64] {
+                let data = b"abc";
+                let oracle = hash_oracle(s, "", &bytes, data);
+                let op = format!("tocid {s} T= {h} {} H={oracle}", hex(data));
+                let imp = ex.exec(&op);
+                sink.push(op, imp, "-".into());
+            }
         }
     }
     // exhaustive short strings over the boundary alphabet: parse, and rebuild a CID from
@@ -94,9 +104,10 @@ pub fn prefix_stream(seed: u64, cases: usize, maxlen: usize, ex: &mut ChildExec)
     sink.push(op, imp, "some 0 112 18 32".into());
     // random mutated prefixes with trailing bytes
     for _ in 0..cases {
-        let codec = *rng.pick(&bounds);
+        let explicit_v0 = rng.chance(1, 4);
+        let codec = if explicit_v0 && rng.chance(2, 3) { 0x70 } else { *rng.pick(&bounds) };
         let code = *rng.pick(&[0x12u64, 0x13, 0x16, 0x1e, 0x99, 0, u64::MAX]);
-        let mut p = uvarint(*rng.pick(&[0u64, 1, 1, 1, 2, 0x12]));
+        let mut p = uvarint(if explicit_v0 { 0 } else { *rng.pick(&[0u64, 1, 1, 1, 2, 0x12]) });
         p.extend(uvarint(codec));
         p.extend(uvarint(code));
         p.extend(uvarint(*rng.pick(&[0u64, 16, 32, 33, 64, 65, 255, 256, u64::MAX])));
@@ -485,3 +496,41 @@ pub fn proto_stream(seed: u64, cases: usize, maxlen: usize, ex: &mut ChildExec) 
 }
 
 pub fn _unused(_: Multihash<64>) {}
+
+/// C19: `Behaviour::get` on a CID of any generic size behaves as on its converted form and
+/// reports invalid-multihash-size exactly when conversion is impossible.
+pub fn getsize_stream(seed: u64, cases: usize, ex: &mut ChildExec) -> Sink {
+    let mut rng = Rng::new(seed);
+    let mut sink = Sink::default();
+    let mut run = |sn: usize, ss: usize, ver: u64, codec: u64, code: u64, digest: &[u8], sink: &mut Sink, ex: &mut ChildExec| {
+        let op = format!("getsize {sn} {ss} {ver} {codec} {code} {}", hex(digest));
+        let imp = ex.exec(&op);
+        let oracle = if digest.len() > ss || (ver == 0 && !(code == 0x12 && digest.len() == 32)) {
+            "invalid-cid"
+        } else if digest.len() <= sn {
+            "lookup"
+        } else {
+            "err"
+        };
+        sink.count(&format!("getsize.{oracle}"));
+        sink.push(op, imp, oracle.into());
+    };
+    for (sn, ss) in [(32usize, 32usize), (32, 64), (32, 128), (64, 32), (64, 64), (64, 128), (40, 64), (40, 128)] {
+        for len in 0..=ss.min(80) {
+            let d: Vec<u8> = (0..len).map(|i| (i * 7) as u8).collect();
+            run(sn, ss, 1, 0x55, 0x12, &d, &mut sink, ex);
+        }
+        if ss >= 32 {
+            run(sn, ss, 0, 0x70, 0x12, &[5u8; 32], &mut sink, ex);
+        }
+    }
+    for _ in 0..cases {
+        let (sn, ss) = *rng.pick(&[(32usize, 64usize), (32, 128), (64, 64), (64, 128), (40, 64), (40, 128), (64, 32), (32, 32)]);
+        let len = rng.below(ss.min(90) + 1);
+        let d = rng.bytes(len);
+        run(sn, ss, 1, *rng.pick(&[0x55u64, 0x70, 1 << 40, u64::MAX]), *rng.pick(&[0x12u64, 0x13, 0, 0x99, u64::MAX]), &d, &mut sink, ex);
+    }
+    sink.add("child.hangs", ex.hangs as u64);
+    sink.add("child.aborts", ex.aborts as u64);
+    sink
+}
